@@ -363,7 +363,7 @@ Proof.
     rewrite (IH _ _ H). unfold rf_units. cbn [map concat]. 
     change (state_unit (root b) :: ne (receipts_unit b)) with ([state_unit (root b)] ++ ne (receipts_unit b)).
     rewrite <- app_assoc, !replay_app. f_equal.
-    unfold execute_block in Ex. destruct (exec_ok apply (sdb_root n0) b); [|discriminate].
+    unfold execute_block in Ex. destruct (pmem n0 =? sdb_root n0); [|discriminate]. destruct (exec_ok apply (sdb_root n0) b); [|discriminate].
     inversion Ex; subst; clear Ex. simpl dur. rewrite emit_ne_replay. reflexivity.
 Qed.
 
@@ -405,7 +405,7 @@ Hypothesis Htop : get_block (dur n) (hash_field top) = Some top.
 Hypothesis Hlt : no (best n) < no top.
 Hypothesis G : gather (S (N.to_nat (no top))) (dur n) (no (best n)) top [] [] = Some (st, news, olds).
 Variable n2 : node.
-Hypothesis RF : rollforward apply (set_sdb n (root st)) (rev news) = (n2, true).
+Hypothesis RF : rollforward apply (set_state n (root st)) (rev news) = (n2, true).
 
 Let m := mkMarker (hash_field st) (no st) (hash_field (best n)) (no (best n)) (hash_field top) (no top).
 Let nF := swap_chain n2 m top news olds false.
@@ -434,7 +434,8 @@ Proof.
     - apply (main_total _ _ _ _ _ I).
     - replace (N.to_nat (no (best n) - no top)) with 0%nat by lia. reflexivity. }
   split.
-  { unfold nF. eapply (swap_inv apply spent apply_fresh apply_spent U g n n2); eauto. }
+  { unfold nF. eapply (swap_inv apply spent apply_fresh apply_spent U g n n2); eauto.
+    eapply rollforward_pmem; [exact RF|reflexivity]. }
   split.
   { unfold nF. destruct (swap_chain_reads n2 m top news olds st Glink) as (Rb & _). exact Rb. }
   split; [exact Ff|]. intros x Hx. apply Hc. exact Hx.
@@ -482,7 +483,7 @@ Proof.
       destruct Hc' as [<-|Hc']; [right; left; reflexivity|left; rewrite <- in_rev; exact Hc']. }
   rewrite Gn.
   (* rollforward by markers *)
-  destruct (rollforward_reco_ok (rev (top :: news')) (set_sdb (set_sdb n1 (root (best n))) (root st)))
+  destruct (rollforward_reco_ok (rev (top :: news')) (set_state (set_state n1 (root (best n))) (root st)))
     as (n4 & R4 & D4 & B4 & O4 & S4).
   { intros x Hx. simpl. unfold has_state_marker. rewrite Hnr by (simpl; auto; discriminate). apply Hmk. exact Hx. }
   rewrite R4. simpl in D4, B4, O4, S4.
@@ -513,7 +514,9 @@ Proof.
   { intros r0. unfold has_state_marker. rewrite Dr. auto. }
   assert (A8 : forall i0 j0, has_receipts (dur nF) i0 j0 = true -> has_receipts (dur r) i0 j0 = true).
   { intros i0 j0. unfold has_receipts. rewrite Dr. auto. }
-  exact (inv_frame2 apply spent U g nF r IF A1 A2 A3 A4 A5 A6 A7 A8).
+  assert (A9 : pmem (reload r) = pmem nF).
+  { change (pmem (reload r)) with (sdb_root r). rewrite A2. symmetry. apply (i_params _ _ _ _ _ IF). }
+  exact (inv_frame2 apply spent U g nF (reload r) IF A1 A2 A3 A4 A5 A6 A7 A8 A9).
 Qed.
 
 (** the tail of Recover on ANY store that agrees with the store before the swap on every key the
@@ -561,7 +564,7 @@ Proof.
       destruct Hc' as [<-|Hc']; [right; left; reflexivity|left; rewrite <- in_rev; exact Hc']. }
   rewrite Gn.
   (* rollforward by markers *)
-  destruct (rollforward_reco_ok (rev (top :: news')) (set_sdb (set_sdb n1 (root (best n))) (root st)))
+  destruct (rollforward_reco_ok (rev (top :: news')) (set_state (set_state n1 (root (best n))) (root st)))
     as (n4 & R4 & D4 & B4 & O4 & S4).
   { intros x Hx. simpl. unfold has_state_marker. rewrite Hnr by (simpl; auto). apply Hmk. exact Hx. }
   rewrite R4. simpl in D4, B4, O4, S4.
@@ -594,7 +597,9 @@ Proof.
   { intros r0. unfold has_state_marker. rewrite Dr. auto. }
   assert (A8 : forall i0 j0, has_receipts (dur nF) i0 j0 = true -> has_receipts (dur r) i0 j0 = true).
   { intros i0 j0. unfold has_receipts. rewrite Dr. auto. }
-  exact (inv_frame2 apply spent U g nF r IF A1 A2 A3 A4 A5 A6 A7 A8).
+  assert (A9 : pmem (reload r) = pmem nF).
+  { change (pmem (reload r)) with (sdb_root r). rewrite A2. symmetry. apply (i_params _ _ _ _ _ IF). }
+  exact (inv_frame2 apply spent U g nF (reload r) IF A1 A2 A3 A4 A5 A6 A7 A8 A9).
 Qed.
 
 Lemma firstn_swap_units j : (j <= length (swap_mid news olds))%nat ->
@@ -629,7 +634,7 @@ Proof.
   assert (RM : get_marker c = Some m).
   { unfold get_marker. rewrite Rd by (simpl; auto). simpl. reflexivity. }
   unfold restart. rewrite RL, RB, RM. unfold recover_chain_mapping. simpl best. simpl m_best at 1. rewrite N.eqb_refl.
-  destruct (recover_tail_ok (mkNode c (best n) (root (best n)) [] [] 0 [] [])
+  destruct (recover_tail_ok (mkNode c (best n) (root (best n)) [] [] 0 [] [] (root (best n)))
               (firstn (Datatypes.S j) SU) (Datatypes.S j) eq_refl eq_refl eq_refl) as (r & R1 & R2 & R3 & R4).
   - intros k. rewrite (firstn_swap_units j Hj). reflexivity.
   - intros k Hk1 Hk2. simpl. rewrite Rd by exact Hk1. rewrite dkey_eqb_neq by (intro E; apply Hk2; auto). reflexivity.
@@ -770,7 +775,7 @@ Qed.
 Lemma rcm_ok c b0 :
   (forall k, lookup_ops (all_ops SU) k = None -> c k = dur n2 k) ->
   hash_field b0 <> hash_field (best n) ->
-  exists n1, recover_chain_mapping (mkNode c b0 (root b0) [] [] 0 [] []) m = Some n1 /\
+  exists n1, recover_chain_mapping (mkNode c b0 (root b0) [] [] 0 [] [] (root b0)) m = Some n1 /\
              best n1 = best n /\ orphans n1 = [] /\
              (forall k, lookup_ops (all_ops SU) k = None -> dur n1 k = dur n2 k) /\
              dur n1 KMarker = c KMarker /\
@@ -866,7 +871,7 @@ Proof.
   - (* the old tip is loaded: no RecoverChainMapping *)
     unfold restart, get_latest. rewrite HL. unfold get_block_by_no, get_hash_by_no. rewrite HH, GBc, Hobs, RM.
     unfold recover_chain_mapping. simpl best. simpl m_best. rewrite N.eqb_refl.
-    destruct (Tail (mkNode c (best n) (root (best n)) [] [] 0 [] []) eq_refl eq_refl R1) as (r & T1 & T).
+    destruct (Tail (mkNode c (best n) (root (best n)) [] [] 0 [] [] (root (best n))) eq_refl eq_refl R1) as (r & T1 & T).
     exists r. rewrite T1. auto.
   - apply (ViaRcm nb (Gstored nb Hnb)) with (L0 := no (best n)); auto.
     apply (reco_nonmain nb (best n) Hnb); [lia|]. rewrite Hno. exact Hob.
@@ -1063,7 +1068,7 @@ Proof.
   destruct R3 as [(HL & [HH|(nb & Hnb & Hno & HH)])|(HL & HH)].
   - unfold restart, get_latest. rewrite HL. unfold get_block_by_no, get_hash_by_no. rewrite HH, GBc, Hobs, RM.
     unfold recover_chain_mapping. simpl best. simpl m_best. rewrite N.eqb_refl.
-    destruct (recover_tail_gen (mkNode c (best n) (root (best n)) [] [] 0 [] []) eq_refl eq_refl R1) as (r & T1 & T2 & T3 & T4 & T5).
+    destruct (recover_tail_gen (mkNode c (best n) (root (best n)) [] [] 0 [] [] (root (best n))) eq_refl eq_refl R1) as (r & T1 & T2 & T3 & T4 & T5).
     exists r, []. rewrite T1. split; [reflexivity|]. split; [exact T4|]. split; [exact T3|]. split; [exact T2|].
     split; [rewrite T5; reflexivity|]. left. reflexivity.
   - apply (ViaRcm nb (Gstored nb Hnb)) with (L0 := no (best n)); auto.
@@ -1219,7 +1224,7 @@ Proof.
   { rewrite Eolds. fold cnt. rewrite Ec at 1. apply (old_heights_main n (no st) I cnt); [lia|]. rewrite <- Ec. exact Hob. }
   rewrite OH. simpl m_top_no. simpl m_best_no.
   set (u := mkUnit SChain UBulk (del_heights (N.to_nat (no top - no (best n))) (no top) ++ map hop olds ++ [(KLatest, Some (VNo (no (best n))))])).
-  set (n0 := mkNode c3 top (root top) [] [] 0 [] []).
+  set (n0 := mkNode c3 top (root top) [] [] 0 [] [] (root top)).
   (* the store after RecoverChainMapping is the store before the height bulk *)
   assert (Dn1 : forall k, dur (set_best (emit n0 u) (best n)) k = c2 k).
   { intros k. simpl. unfold apply_unit. rewrite apply_ops_lookup. unfold u. cbn [u_ops].
@@ -1357,8 +1362,10 @@ Proof.
       as (r & R1 & R2 & R3 & R4 & _).
     exists r. split; [exact R1|]. right. split; [exact R3|].
     assert (Es : sdb_root r = sdb_root n) by (rewrite (i_sdb _ _ _ _ _ R2), R3; symmetry; apply (i_sdb _ _ _ _ _ I)).
-    unfold connect_main, execute_block in Hc |- *. rewrite Es.
-    destruct (exec_ok apply (sdb_root n) b); [|discriminate].
+    assert (Ep : pmem r =? sdb_root n = true) by (rewrite (i_params _ _ _ _ _ R2), Es; apply N.eqb_refl).
+    unfold connect_main, execute_block in Hc |- *. rewrite Es, Ep.
+    destruct (pmem n =? sdb_root n); [|discriminate]. destruct (exec_ok apply (sdb_root n) b); [|discriminate].
+    cbn [andb].
     eexists. split; [reflexivity|]. split; [reflexivity|].
     intros key. inversion Hc; subst n'; clear Hc. simpl dur. rewrite !emit_ne_replay. simpl dur. rewrite R4.
     change (apply_unit (replay (apply_unit ?d (state_unit (root b))) (ne (receipts_unit b))) (connect_unit b))
@@ -1383,7 +1390,7 @@ End Converge.
 Lemma reorg_units_exact apply n top st news olds n2 :
   gather (S (N.to_nat (no top))) (dur n) (no (best n)) top [] [] = Some (st, news, olds) ->
   (no st <? lib n) = false ->
-  rollforward apply (set_sdb n (root st)) (rev news) = (n2, true) ->
+  rollforward apply (set_state n (root st)) (rev news) = (n2, true) ->
   let m := mkMarker (hash_field st) (no st) (hash_field (best n)) (no (best n)) (hash_field top) (no top) in
   reorg apply true n top = (swap_chain n2 m top news olds false, false) /\
   dur (swap_chain n2 m top news olds false) = replay (dur n) (rf_units (rev news) ++ swap_units m top news olds).
